@@ -6,6 +6,7 @@ package props
 import (
 	"encoding/json"
 	"fmt"
+	"net/url"
 	"sort"
 	"sync"
 
@@ -19,21 +20,37 @@ import (
 // every request.
 type memLoader struct {
 	mu      sync.Mutex
+	byKey   map[string]string
 	docs    map[string]string
 	refused map[string]bool
 	log     []string
 }
 
 func newLoader(docs map[string]string, refused map[string]bool) *memLoader {
-	return &memLoader{docs: docs, refused: refused}
+	l := &memLoader{docs: docs, refused: refused, byKey: map[string]string{}}
+	for u := range docs {
+		l.byKey[urlKey(u)] = u
+	}
+	return l
+}
+
+// urlKey identifies a document modulo percent-encoding normalisation (RFC 3986 6.2.2): like a real loader,
+// the in-memory one serves file:///a%28b%29/x.json and file:///a(b)/x.json alike. What was literally asked
+// for is kept in the log; whether it is ONE canonical text is C11's business.
+func urlKey(s string) string {
+	u, err := url.Parse(s)
+	if err != nil {
+		return s
+	}
+	return u.Scheme + "://" + u.Host + u.Path + "?" + u.RawQuery
 }
 
 func (l *memLoader) load(p string) (json.RawMessage, error) {
 	l.mu.Lock()
 	defer l.mu.Unlock()
 	l.log = append(l.log, p)
-	if s, ok := l.docs[p]; ok && !l.refused[p] {
-		return json.RawMessage(s), nil
+	if u, ok := l.byKey[urlKey(p)]; ok && !l.refused[u] {
+		return json.RawMessage(l.docs[u]), nil
 	}
 	return nil, fmt.Errorf("no such document %q", p)
 }
